@@ -2,6 +2,7 @@
    accepted event stream (any number of demes, generations, evaluations). *)
 From Coq Require Import ZArith Bool List.
 From HV Require Import Ord Select SelectFacts Hist HistFacts.
+From HV Require Import RealTraces.
 Import ListNotations.
 
 (* every stored individual (and every seed) names an evaluation in the log that was made for exactly its genome and returned
@@ -38,3 +39,6 @@ Print Assumptions C02_log_is_append_only.
 Example C02_example : exists s, hrun hinit [HBegin true None true; HEval 0 1 50; HEval 0 2 30; HGen 0 [Fresh 0; Fresh 1]; HEval 0 3 10; HGen 0 [Carried 1; Fresh 0]] = Some s /\
   map (fun gt => map ifit (fst gt)) (hgens (nth 0 (hdemes s) {| hgens := []; hpend := []; hfixed := false; hseed := None; hpar := None |})) = [[50; 30]; [30; 10]]%Z.
 Proof. vm_compute. eexists. split; reflexivity. Qed.
+
+(* non-vacuity on real data: recorded histories accepted by the history machine, invariant HI holding (Proofs/RealTraces.v) *)
+Definition C02_real_histories_accepted := (real1_history_accepted, real2_history_accepted, real3_history_accepted).
